@@ -138,14 +138,14 @@ def oracle_wrap_line(rep, seg, case, answer):
     limited = eff_max > 0 and len(rows) >= eff_max
     # --- row widths (stated for width-1 symbols, which is what delta documents)
     if symw == 1 and seg.width(rsym) == 1:
+        # (repaired code) without a limit wrapping stops when a cluster cannot stand next to the
+        # wrap symbol at all; the rest is then the last row, as at the limit
+        unfit = any(cw + symw > lw for _, cw in clusters)
         for k, w in enumerate(rw):
             last = k == len(rows) - 1
-            # (repaired code) a cluster too wide to stand next to the wrap symbol gets a row of its own
-            pos = [cw for _, t in rows[k][:-1] for _, cw in seg.one(t) if cw > 0]
-            forced = (not last) and len(pos) == 1 and pos[0] + symw > lw
-            if w > lw and not (last and limited) and not forced:
+            if w > lw and not (last and (limited or (eff_max == 0 and unfit))):
                 viol(rep, "wrap_line:row-too-wide", f"row {k} has width {w} > line width {lw}",
-                              dict(case, got=answer))
+                     dict(case, got=answer))
                 return
     if eff_max > 0 and len(rows) > eff_max:
         viol(rep, "wrap_line:too-many-rows", f"{len(rows)} rows with max_lines {eff_max}",
@@ -270,7 +270,7 @@ def part_wrap_line(ctx, rep, hook, mdl, seg):
             lws = [lws[(k + j) % len(lws)] for j in range(2)]
         for lw in lws:
             k += 1
-            maxl = MAXLINES[k % len(MAXLINES)] if ctx.quick() else None
+            maxl = MAXLINES[k % len(MAXLINES)] if (ctx.quick() or len(pat) >= 5) else None
             for m in ([maxl] if maxl is not None else MAXLINES):
                 req, case = mk_line_case(seg, secs, lw, m, [370, 0, 1000, 600][k % 4], DEFAULT_SYMS,
                                          hint=HINT if k % 3 else None)
